@@ -468,6 +468,11 @@ func (b *BaseStore) Load(ctx context.Context, amount int) error {
 		amount = *b.options.MaxHistory
 	}
 
+	if amount <= 0 {
+		// no limit: a size of 0 would make the log drop every entry when joining
+		amount = -1
+	}
+
 	var localHeads, remoteHeads []*entry.Entry
 	localHeadsBytes, err := b.Cache().Get(ctx, datastore.NewKey("_localHeads"))
 	if err != nil && err != datastore.ErrNotFound {
